@@ -29,19 +29,10 @@ var softInt32Fields = map[string]bool{"Port": true, "PageSize": true, "NowInSeco
 	"PagesPerSecond": true, "NextPages": true, "Required": true, "Alive": true, "Received": true, "BlockFor": true,
 	"ContinuousPage": true}
 
-func lowBytes(n int, r *mon.Rand) []byte {
-	b := make([]byte, n)
-	// mostly zero bytes: a misplaced 4-byte read rarely sees a non-zero most significant byte
-	for i := range b {
-		if r.Intn(8) == 0 {
-			b[i] = byte(1 + r.Intn(2))
-		}
-	}
-	if n > 0 {
-		b[n-1] = byte(1 + r.Intn(15)) // keeps keys / names distinct
-	}
-	return b
-}
+// lowBytes: content is all zero bytes. Any non-zero content byte that a shifted 4-byte read finds in
+// its most significant position is a count of 2^24 or more (measured: the main source of
+// out-of-memory worker deaths when contents were merely "small").
+func lowBytes(n int, r *mon.Rand) []byte { return make([]byte, n) }
 
 func softenFrame(f *ref.Frame, r *mon.Rand) {
 	if f.TracingID != nil {
@@ -88,11 +79,11 @@ func softenValue(v reflect.Value, field string, r *mon.Rand) {
 		// single bytes are codes (batch type, ...): kept
 	case reflect.Int64:
 		if v.CanSet() {
-			v.SetInt(int64(1 + r.Intn(3)))
+			v.SetInt(0)
 		}
 	case reflect.Int32:
 		if v.CanSet() && softInt32Fields[field] {
-			v.SetInt(int64(1 + r.Intn(3)))
+			v.SetInt(0)
 		}
 	}
 }
@@ -108,7 +99,7 @@ func softenCQL(t *cqlref.Type, v *cqlref.Value, ctr *int) *cqlref.Value {
 		return &c
 	}
 	*ctr++
-	n := int64(*ctr % 100)
+	n := int64(0) // all scalar contents zero: see lowBytes
 	out := &cqlref.Value{}
 	switch t.Kind {
 	case cqlref.List, cqlref.Set, cqlref.Map, cqlref.Tuple, cqlref.UDT:
@@ -147,9 +138,6 @@ func softenCQL(t *cqlref.Type, v *cqlref.Value, ctr *int) *cqlref.Value {
 		out.Months, out.Days, out.Nanos = n%3, n%5, n
 	default: // ascii text blob custom uuid timeuuid inet
 		b := make([]byte, len(v.Bytes))
-		if len(b) > 0 {
-			b[len(b)-1] = byte(1 + n%15)
-		}
 		out.Bytes = b
 		if v.Bytes == nil {
 			out.Bytes = nil
